@@ -19,6 +19,22 @@ type modelFn func(e *Enc, fr *frame, st *State, args []Value, prefix string, rt 
 type ifaceModelFn func(e *Enc, fr *frame, st *State, recv Value, args []Value, prefix string, rt types.Type) Value
 
 var trustedModels map[string]modelFn
+
+// genericModels are matched by the prefix of the instantiated function's
+// name (e.g. "maps.Copy[").
+var genericModels = map[string]modelFn{}
+
+func lookupModel2(key string) (modelFn, string, bool) {
+	if m, ok := trustedModels[key]; ok {
+		return m, key, true
+	}
+	if i := strings.Index(key, "["); i > 0 {
+		if m, ok := genericModels[key[:i+1]]; ok {
+			return m, key[:i+1] + "...]", true
+		}
+	}
+	return nil, "", false
+}
 var trustedIfaceModels = map[string]ifaceModelFn{}
 var trustedModelWrites = map[string]func(e *Enc, c *ssa.CallCommon) []string{}
 
@@ -27,7 +43,125 @@ var curCall *ssa.CallCommon
 
 func init() {
 	boolT := types.Typ[types.Bool]
+	genericModels["maps.Copy["] = func(e *Enc, fr *frame, st *State, a []Value, p string, rt types.Type) Value {
+		dst, src := a[0], a[1]
+		dom, val, ln := e.mapKeys(dst.typ)
+		sdom, sval, _ := e.mapKeys(src.typ)
+		mt := dst.typ.Underlying().(*types.Map)
+		ks, vs := e.u.sortOf(mt.Key()), e.u.sortOf(mt.Elem())
+		// copying from a non-empty source into the nil map panics
+		k0 := e.q.freshBound("k")
+		e.oblige(st, "nopanic", "nil-map-store (maps.Copy)", fmt.Sprintf("(or (not (= %s 0)) (= %s 0) (forall ((%s %s)) (not (select (select %s %s) %s))))", dst.term, src.term, k0, ks, st.get(sdom), src.term, k0), 0)
+		nd := e.q.fresh(p+"_dom", "(Array "+ks+" Bool)")
+		nv := e.q.fresh(p+"_val", "(Array "+ks+" "+vs+")")
+		nl := e.q.fresh(p+"_len", sortInt)
+		k := e.q.freshBound("k")
+		srcHas := fmt.Sprintf("(and (not (= %s 0)) (select (select %s %s) %s))", src.term, st.get(sdom), src.term, k)
+		st.assume(fmt.Sprintf("(forall ((%[1]s %[2]s)) (and (= (select %[3]s %[1]s) (or (select (select %[4]s %[5]s) %[1]s) %[6]s)) (= (select %[7]s %[1]s) (ite %[6]s (select (select %[8]s %[9]s) %[1]s) (select (select %[10]s %[5]s) %[1]s)))))",
+			k, ks, nd, st.get(dom), dst.term, srcHas, nv, st.get(sval), src.term, st.get(val)))
+		st.assume("(>= " + nl + " " + sel(st.get(ln), dst.term) + ")")
+		st.set(dom, store(st.get(dom), dst.term, nd))
+		st.set(val, store(st.get(val), dst.term, nv))
+		st.set(ln, store(st.get(ln), dst.term, nl))
+		return Value{typ: types.NewTuple()}
+	}
+	genericModels["slices.Clone["] = func(e *Enc, fr *frame, st *State, a []Value, p string, rt types.Type) Value {
+		s := a[0]
+		et := s.typ.Underlying().(*types.Slice).Elem()
+		ek := e.elemKey(et)
+		ref := e.q.define(p+"_arr", sortInt, st.ap)
+		st.ap = e.q.define("ap", sortInt, "(+ "+st.ap+" 1)")
+		st.assume("(> " + ref + " 0)")
+		arr := e.q.fresh(p+"_elems", "(Array Int "+e.u.sortOf(et)+")")
+		i := e.q.freshBound("i")
+		st.assume(fmt.Sprintf("(forall ((%[1]s Int)) (=> (and (<= 0 %[1]s) (< %[1]s (s_len %[2]s))) (= (select %[3]s %[1]s) (select (select %[4]s (s_arr %[2]s)) (+ (s_off %[2]s) %[1]s)))))", i, s.term, arr, st.get(ek)))
+		st.set(ek, store(st.get(ek), ref, arr))
+		res := e.q.define(p, sortSlice, ite("(= (s_arr "+s.term+") 0)", "nil_slice", fmt.Sprintf("(mk_slice %s 0 (s_len %s) (s_len %s))", ref, s.term, s.term)))
+		return Value{term: res, typ: rt}
+	}
+	// github.com/gammazero/deque: sequence ADT. The deque at pointer p has
+	// length DQL[p] and elements DQE[p][0..len-1] (front first).
+	dqKeys := func(e *Enc, recv Value) (string, string, types.Type) {
+		named := recv.typ.Underlying().(*types.Pointer).Elem()
+		var et types.Type
+		if n, ok := types.Unalias(named).(*types.Named); ok && n.TypeArgs().Len() == 1 {
+			et = n.TypeArgs().At(0)
+		}
+		lk := "DQL"
+		ek := "DQE:" + shortTypeName(et)
+		if _, ok := e.q.keySort(lk); !ok {
+			e.q.declareHeap(lk, "(Array Int Int)")
+		}
+		if _, ok := e.q.keySort(ek); !ok {
+			e.q.declareHeap(ek, "(Array Int (Array Int "+e.u.sortOf(et)+"))")
+		}
+		return lk, ek, et
+	}
+	genericModels["(*github.com/gammazero/deque.Deque["] = func(e *Enc, fr *frame, st *State, a []Value, p string, rt types.Type) Value {
+		lk, ek, et := dqKeys(e, a[0])
+		recv := a[0].term
+		ln := sel(st.get(lk), recv)
+		st.assume("(>= " + ln + " 0)")
+		name := ""
+		if curCall != nil && curCall.StaticCallee() != nil {
+			name = curCall.StaticCallee().Name()
+		}
+		switch name {
+		case "Len":
+			return Value{term: e.q.define(p, sortInt, ln), typ: rt}
+		case "At":
+			e.oblige(st, "nopanic", "deque.At out of range", "(and (<= 0 "+a[1].term+") (< "+a[1].term+" "+ln+"))", 0)
+			v := Value{term: e.q.define(p, e.u.sortOf(et), sel(sel(st.get(ek), recv), a[1].term)), typ: et}
+			st.assume(e.wf(st, et, v.term))
+			return v
+		case "PushBack":
+			st.set(ek, store(st.get(ek), recv, store(sel(st.get(ek), recv), ln, a[1].term)))
+			st.set(lk, store(st.get(lk), recv, "(+ "+ln+" 1)"))
+			return Value{typ: types.NewTuple()}
+		case "PopFront":
+			e.oblige(st, "nopanic", "deque.PopFront on empty deque", "(> "+ln+" 0)", 0)
+			old := sel(st.get(ek), recv)
+			front := e.q.define(p, e.u.sortOf(et), sel(old, "0"))
+			na := e.q.fresh(p+"_shift", "(Array Int "+e.u.sortOf(et)+")")
+			i := e.q.freshBound("i")
+			st.assume(fmt.Sprintf("(forall ((%[1]s Int)) (= (select %[2]s %[1]s) (select %[3]s (+ %[1]s 1))))", i, na, old))
+			st.set(ek, store(st.get(ek), recv, na))
+			st.set(lk, store(st.get(lk), recv, "(- "+ln+" 1)"))
+			return Value{term: front, typ: et}
+		}
+		e.q.note("unsupported deque method %s", name)
+		st.havocKey(lk, nil)
+		st.havocKey(ek, nil)
+		return e.freshResult(st, p, rt)
+	}
+	genericModels["slices.Contains["] = func(e *Enc, fr *frame, st *State, a []Value, p string, rt types.Type) Value {
+		s, v := a[0], a[1]
+		et := s.typ.Underlying().(*types.Slice).Elem()
+		ek := e.elemKey(et)
+		i := e.q.freshBound("i")
+		r := e.q.fresh(p, sortBool)
+		st.assume(fmt.Sprintf("(= %[1]s (exists ((%[2]s Int)) (and (<= 0 %[2]s) (< %[2]s (s_len %[3]s)) (= (select (select %[4]s (s_arr %[3]s)) (+ (s_off %[3]s) %[2]s)) %[5]s))))", r, i, s.term, st.get(ek), v.term))
+		return Value{term: r, typ: boolT}
+	}
 	trustedModels = map[string]modelFn{
+		// fmt.Sprintf with the constant format "%s_%s" and two string-typed
+		// operands is concatenation; any other use yields an unconstrained string.
+		"fmt.Sprintf": func(e *Enc, fr *frame, st *State, a []Value, p string, rt types.Type) Value {
+			res := Value{term: e.q.fresh(p, sortString), typ: rt}
+			if curCall != nil {
+				if c, ok := curCall.Args[0].(*ssa.Const); ok && c.Value != nil && c.Value.Kind() == constant.String && constant.StringVal(c.Value) == "%s_%s" {
+					ek := e.elemKey(types.Universe.Lookup("any").Type())
+					el := func(i int) string {
+						return sel(sel(st.get(ek), "(s_arr "+a[1].term+")"), fmt.Sprintf("(+ (s_off %s) %d)", a[1].term, i))
+					}
+					isStr := func(x string) string {
+						return "((_ is VStr) (ival " + x + "))"
+					}
+					st.assume(fmt.Sprintf("(=> (and (= (s_len %s) 2) %s %s) (= %s (str.++ (vstr (ival %s)) \"_\" (vstr (ival %s)))))", a[1].term, isStr(el(0)), isStr(el(1)), res.term, el(0), el(1)))
+				}
+			}
+			return res
+		},
 		"strings.HasPrefix": func(e *Enc, fr *frame, st *State, a []Value, p string, rt types.Type) Value {
 			return Value{term: e.q.define(p, sortBool, "(str.prefixof "+a[1].term+" "+a[0].term+")"), typ: boolT}
 		},
